@@ -18,6 +18,12 @@ type l1State struct {
 	orderOK  bool // every node was consulted only after all its ancestors accepted
 	onceOK   bool // no node was consulted twice
 	extNodes []*MIME
+	// capture mode (L2 harnesses): detectors reject everything and record what the first one received
+	allFalse bool
+	captured bool
+	capRaw   []byte
+	capLimit uint32
+	calls    int
 }
 
 var l1 *l1State
@@ -48,6 +54,15 @@ func l1SameSlice(a, b []byte) bool {
 
 func (s *l1State) detectorFor(i int) func([]byte, uint32) bool {
 	return func(raw []byte, limit uint32) bool {
+		if s.allFalse {
+			s.calls++
+			if !s.captured {
+				s.captured, s.capRaw, s.capLimit = true, raw, limit
+			} else if !l1SameSlice(raw, s.capRaw) || limit != s.capLimit {
+				s.argsOK = false
+			}
+			return false
+		}
 		if !l1SameSlice(raw, s.raw) || limit != s.limit {
 			s.argsOK = false
 		}
